@@ -81,7 +81,7 @@ def r1(ctx):
         rule.check(okk, "comparator = cmp(target.distance(a), target.distance(b))", "closest|comparator",
                    "the sort comparator is %s (descending, or not by distance to the target)" % fmt_short(e), loc=cb.loc(cb.line))
     if not cmps:
-        raise AnchorError("sort comparator closure not found")
+        rule.fail("closest|unsorted", "ClosestIter::next has no sort comparator: the nodes of a bucket are yielded without being sorted by distance to the target")
     return rule
 
 
